@@ -112,6 +112,10 @@ fn new_ctx() -> Ctx {
     fn host_conv(s: String, f: f64, flag: TulispObject) -> String {
         format!("{}|{}|{}", s, f.to_bits(), flag.is_truthy())
     }
+    #[tulisp_fn(add_func = "ctx", name = "host-id")]
+    fn host_id(x: TulispObject) -> TulispObject {
+        x
+    }
     Ctx { ctx, probe }
 }
 
